@@ -58,6 +58,9 @@ def build(spec, dtype):
                 m.weight = mods[c["tie_to"]].weight
             mods.append(m)
         return nn.Sequential(*mods)
+    if k == "seqslice":
+        # a slice of a longer Sequential: its children keep the keys "1", "2", ... (keys != positions)
+        return nn.Sequential(nn.Identity(), *[build(c, dtype) for c in spec["c"]])[1:]
     if k == "chain":
         return Chain([build(c, dtype) for c in spec["c"]])
     if k == "res":
@@ -156,6 +159,9 @@ def walk_leaves(spec, prefix=""):
         for i, c in enumerate(spec["c"]):
             if c["k"] != "ref":
                 out += walk_leaves(c, f"{prefix}{i}.")
+    elif k == "seqslice":
+        for i, c in enumerate(spec["c"]):
+            out += walk_leaves(c, f"{prefix}{i + 1}.")
     elif k == "chain":
         for i, c in enumerate(spec["c"]):
             out += walk_leaves(c, f"{prefix}blocks.b{i}.")
